@@ -468,6 +468,7 @@ class C10(engine.Property):
         "continuation-mutation-on-copy",
         "bytes-attribute",
         "slotted-attributes-pickled",
+        "law-set-made-a-universe-member",
     ]
 
     # -- configuration --------------------------------------------------------------------
@@ -500,7 +501,7 @@ class C10(engine.Property):
         cfg["universes_as_ends"] = rng.random() < 0.3
         cfg["universe_classes"] = rng.choice([["Universe"], ["Universe", "SubUniverse"], ["Universe", "FalsyUniverse"]])
         cfg["p_attr"] = rng.choice([0.05, 0.15, 0.3])
-        cfg["p_laws"] = rng.choice([0.0, 0.05, 0.1])
+        cfg["p_laws"] = rng.choice([0.0, 0.05, 0.1, 0.2])
         cfg["p_read1"] = rng.choice([0.2, 0.4])
         cfg["nb_filters"] = rng.choice([[None], [None, "accept", "even", "dironly"]])
         cfg["result_filters"] = [None, "even"]
@@ -581,7 +582,13 @@ class C10(engine.Property):
             if r < cfg["p_attr"]:
                 op = self._attr_op(rng, st)
             elif r < cfg["p_attr"] + cfg["p_laws"] and view.universes() and view.laws():
-                op = {"op": "set_laws", "u": rng.choice(view.universes()), "L": rng.choice(view.laws() + [None])}
+                if rng.random() < 0.3:
+                    # a universe may contain any BaseObject -- a law set too,
+                    # even the one that applies to it
+                    op = {"op": "uni_add", "u": rng.choice(view.universes()), "v": rng.choice(view.laws())}
+                    st.stats["probe:law-set-made-a-universe-member"] += 1
+                else:
+                    op = {"op": "set_laws", "u": rng.choice(view.universes()), "L": rng.choice(view.laws() + [None])}
             elif r < cfg["p_attr"] + cfg["p_laws"] + cfg["p_read1"]:
                 kind = gen.weighted_choice(rng, cfg["read_weights"])
                 op = getattr(st.gen, "g_" + kind)(rng, view, st.namer, focus=st.focus[-4:])
